@@ -7,11 +7,27 @@ Driver for stream `wire`: one op per line, one observation per line.
   dec <codec> <hex>           -> ok rest=<n> enc=<hex> hash=<hex|-> v=<tokens> | err
   enc <codec> <tokens…>       -> <hex> size=<n> | bad-value
   txpaths <hex>               -> paths frombytes=<hash>/<size>|err stream=<hash>/<size>|err
+  encdag <0|1> <graph tokens…>  -> <hex> size=<n> | err     (stack item with shared compounds; 1 = protected form)
+  txo new|dec <hex>|frombytes <hex>|size|hash|copy|bytes|script <hex>|nonce <n>|inv <i> <hex>
+                              -> ok | err | <n> | <hex>   (one Transaction OBJECT with its cached size/hash; state of the case)
+  jsont enc <item tokens>     -> <hex of the JSON text> | err             (ToJSONWithTypes)
+  jsont dec <hex of text>     -> ok <item tokens> | err | panic | unsupported   (FromJSONWithTypes; plain ASCII JSON)
+  jsonu enc <item tokens>     -> <hex of the JSON text> | err             (ToJSON)
+  jsonu dec <maxCount> <hex>  -> ok <item tokens> | err | unsupported     (FromJSON; plain texts, small integers)
+  getvarsize ser|other|int1 <size>…  -> <n>              (io.GetVarSize of a slice, element sizes given)
+  exto new|dec <hex>|hash|bytes -> …                      (one Extensible object with its cached hash)
+  dec mfitem|contract <hex> <normhex>   (stored form of a manifest / deployed contract; <normhex> = what the real
+                                         extraToStackItem makes of the decoded Extra: encoding/json is not modelled)
 -/
 import NeoModel.Base.Proto
 import NeoModel.Base.Sha256
 import NeoModel.Model.Wire.VarUint
 import NeoModel.Model.Wire.Text
+import NeoModel.Model.Wire.TextManifest
+import NeoModel.Model.Wire.Identity
+import NeoModel.Model.Wire.Obj
+import NeoModel.Model.Wire.ItemJson
+import NeoModel.Model.Wire.ItemJsonU
 open NeoModel NeoModel.Wire NeoModel.Wire.Text
 
 def joinToks (t : List String) : String := " ".intercalate t
@@ -31,15 +47,10 @@ def encObs {α : Type} (c : Codec α) (p : Text.P α) (ts : List String) : Strin
   | some (v, []) => s!"{Hex.encode (c.enc v)} size={c.size v}"
   | _ => "bad-value"
 
-def txHash (t : Tx) : Bytes := Sha256.hash ((txBodyC p256).enc t.body)
-
-def stateRootHash (s : StateRoot) : Bytes :=
-  Sha256.hash ((Codec.seq Codec.byte (Codec.seq (Codec.uintLE 4) (Codec.fixed 32))).enc (s.version, s.index, s.root))
-
-def extensibleHash (e : Extensible) : Bytes :=
-  Sha256.hash ((Codec.seq (Codec.varBytes Generated.WireLimits.maxExtensibleCategorySize) (Codec.seq (Codec.uintLE 4)
-    (Codec.seq (Codec.uintLE 4) (Codec.seq (Codec.fixed 20) (Codec.varBytes Generated.WireLimits.payloadMaxSize))))).enc
-    (e.category, e.validStart, e.validEnd, e.sender, e.data))
+/-! identities: the model's definitions (Model/Wire/Identity.lean) with SHA-256 -/
+def txHashD (t : Tx) : Bytes := txHash Sha256.hash p256 t
+def stateRootHashD (s : StateRoot) : Bytes := stateRootHash Sha256.hash s
+def extensibleHashD (e : Extensible) : Bytes := extensibleHash Sha256.hash e
 
 /-- stack items: the re-encoding can fail (the decoder has no total-size limit, the serialiser has). -/
 def itemObs (prot : Bool) (b : Bytes) : String :=
@@ -89,7 +100,7 @@ def consObs (sr : Bool) (b : Bytes) : String :=
   | none => "err"
   | some (m, _) =>
     let e := (consMsgC sr).enc m
-    let h := extensibleHash ⟨[0x64, 0x42, 0x46, 0x54], 0, m.header.blockIndex, List.replicate 20 0, e, ⟨[], []⟩⟩
+    let h := extensibleHashD ⟨[0x64, 0x42, 0x46, 0x54], 0, m.header.blockIndex, List.replicate 20 0, e, ⟨[], []⟩⟩
     s!"ok rest=0 enc={Hex.encode e} hash={Hex.encode h} v={joinToks (showConsMsg sr m)}"
 
 /-- P2P message (uncompressed frames only: LZ4 is not modelled): canonical uncompressed re-encoding, dump. -/
@@ -100,14 +111,67 @@ def messageObs (sr : Bool) (b : Bytes) : String :=
     let e := frameC.enc ⟨0, cmd, payloadEnc Sha256.hash p256 sr p⟩
     s!"ok rest={r.length} enc={Hex.encode e} hash=- v={joinToks (toString cmd.toNat :: showPayload sr p)}"
 
-def notaryHash (r : NotaryRequest) : Bytes :=
-  Sha256.hash ((txC p256).enc r.main ++ (txC p256).enc r.fallback)
+def notaryHashD (r : NotaryRequest) : Bytes := notaryHash Sha256.hash p256 r
+
+/-- stored form of a manifest: Deserialize + FromStackItem; re-encoding = Serialize (ToStackItem m). -/
+def manifestObs (norm : Bytes → Bytes) (b : Bytes) : String :=
+  match Item.decode false b with
+  | none => "err"
+  | some (it, r) =>
+    match Manifest.fromItem p256 it with
+    | none => "err"
+    | some m =>
+      let shown := joinToks (showManifest norm m)
+      match Manifest.store norm m with
+      | some e => s!"ok rest={r.length} enc={Hex.encode e} hash=- v={shown}"
+      | none => s!"ok rest={r.length} enc=? v={shown}"
+
+def contractObs (norm : Bytes → Bytes) (b : Bytes) : String :=
+  match Item.decode false b with
+  | none => "err"
+  | some (it, r) =>
+    match Contract.fromItem Sha256.hash2 p256 it with
+    | none => "err"
+    | some c =>
+      let shown := joinToks (showContract norm c)
+      match c.store Sha256.hash2 norm with
+      | some e => s!"ok rest={r.length} enc={Hex.encode e} hash=- v={shown}"
+      | none => s!"ok rest={r.length} enc=? v={shown}"
+
+def manifestEncObs (ts : List String) : String :=
+  match pManifest ts with
+  | some ((m, nx), []) =>
+    match Manifest.store (fun _ => nx) m with
+    | some e => s!"{Hex.encode e} size={e.length}"
+    | none => "err"
+  | _ => "bad-value"
+
+def contractEncObs (ts : List String) : String :=
+  match pContract ts with
+  | some ((c, nx), []) =>
+    match c.store Sha256.hash2 (fun _ => nx) with
+    | some e => s!"{Hex.encode e} size={e.length}"
+    | none => "err"
+  | _ => "bad-value"
+
+/-- the serialiser with its `seen` cache on an item graph (Model/Wire/ItemDag.lean). -/
+def dagEncObs (prot : Bool) (ts : List String) : String :=
+  match pGraph ts with
+  | some ((g, root), []) =>
+    if prot then
+      let e := serializeProtectedG g root
+      s!"{Hex.encode e} size={e.length}"
+    else
+      match serializeG false g root with
+      | some e => s!"{Hex.encode e} size={e.length}"
+      | none => "err"
+  | _ => "bad-value"
 
 def decOp (name : String) (b : Bytes) : String :=
   match name with
   | "message0" => messageObs false b
   | "message1" => messageObs true b
-  | "notaryreq" => decObs (notaryRequestC Sha256.hash p256) (fun r => some (notaryHash r)) showNotary b
+  | "notaryreq" => decObs (notaryRequestC Sha256.hash p256) (fun r => some (notaryHashD r)) showNotary b
   | "p2p.version" => decObs versionC (fun _ => none) showVersion b
   | "p2p.addr" => decObs addressListC (fun _ => none) showAddrs b
   | "p2p.inv" => decObs inventoryC (fun _ => none) showInventory b
@@ -132,18 +196,20 @@ def decOp (name : String) (b : Bytes) : String :=
   | "rule" => decObs (ruleC p256) (fun _ => none) showRule b
   | "signer" => decObs (signerC p256) (fun _ => none) showSigner b
   | "attr" => decObs attrC (fun _ => none) showAttr b
-  | "tx" => decObs (txC p256) (fun t => some (txHash t)) showTx b
+  | "tx" => decObs (txC p256) (fun t => some (txHashD t)) showTx b
   | "header0" => decObs (headerC false) (fun h => some (headerHash Sha256.hash false h)) (showHeader false) b
   | "header1" => decObs (headerC true) (fun h => some (headerHash Sha256.hash true h)) (showHeader true) b
-  | "block0" => decObs (blockC p256 false) (fun x => some (headerHash Sha256.hash false x.header)) (showBlock false) b
-  | "block1" => decObs (blockC p256 true) (fun x => some (headerHash Sha256.hash true x.header)) (showBlock true) b
-  | "stateroot" => decObs stateRootC (fun s => some (stateRootHash s)) showStateRoot b
-  | "extensible" => decObs extensibleC (fun e => some (extensibleHash e)) showExtensible b
+  | "block0" => decObs (blockC p256 false) (fun x => some (blockHash Sha256.hash false x)) (showBlock false) b
+  | "block1" => decObs (blockC p256 true) (fun x => some (blockHash Sha256.hash true x)) (showBlock true) b
+  | "stateroot" => decObs stateRootC (fun s => some (stateRootHashD s)) showStateRoot b
+  | "extensible" => decObs extensibleC (fun e => some (extensibleHashD e)) showExtensible b
   | _ => "bad-op"
 
 def encOp (name : String) (ts : List String) : String :=
   match name with
   | "mptnode" => nodeEncObs ts
+  | "mfitem" => manifestEncObs ts
+  | "contract" => contractEncObs ts
   | "notification" => encObs notificationC pNotification ts
   | "aer" => encObs aerC pAer ts
   | "nef" => encObs (nefC Sha256.hash2) pNef ts
@@ -172,9 +238,102 @@ def txPathsObs (b : Bytes) : String :=
     | _ => "err"
   s!"paths frombytes={fb} stream={st}"
 
-def step (s : Unit) (ws : List String) : Unit × String :=
+structure DrvSt where
+  tx : Option TxObj := none
+  ext : Option ExtObj := none
+
+def setNth {α : Type} : List α → Nat → (α → α) → List α
+  | [], _, _ => []
+  | x :: xs, 0, f => f x :: xs
+  | x :: xs, n+1, f => x :: setNth xs n f
+
+/-- operations on the Transaction object of the case. -/
+def txoStep (s : DrvSt) (ws : List String) : DrvSt × String :=
+  match ws, s.tx with
+  | ["new"], _ => ({ s with tx := some TxObj.new }, "ok")
+  | ["frombytes", h], _ =>
+    match (Hex.decode h).bind (TxObj.fromBytes Sha256.hash p256) with
+    | some o => ({ s with tx := some o }, "ok")
+    | none => ({ s with tx := none }, "err")
+  | ["dec", h], some o =>
+    match (Hex.decode h).bind (o.decode Sha256.hash p256) with
+    | some o' => ({ s with tx := some o' }, "ok")
+    | none => ({ s with tx := none }, "err")
+  | ["size"], some o => let (o', n) := o.sizeOf p256; ({ s with tx := some o' }, toString n)
+  | ["hash"], some o => let (o', h) := o.hashOf Sha256.hash p256; ({ s with tx := some o' }, Hex.encode h)
+  | ["copy"], some o => ({ s with tx := some o.copy }, "ok")
+  | ["bytes"], some o => (s, Hex.encode ((txC p256).enc o.v))
+  | ["script", h], some o =>
+    match Hex.decode h with
+    | some b => ({ s with tx := some (o.edit fun t => { t with body := { t.body with script := b } }) }, "ok")
+    | none => (s, "bad-op")
+  | ["nonce", n], some o =>
+    match n.toNat? with
+    | some v => ({ s with tx := some (o.edit fun t => { t with body := { t.body with nonce := v } }) }, "ok")
+    | none => (s, "bad-op")
+  | ["inv", i, h], some o =>
+    match i.toNat?, Hex.decode h with
+    | some j, some b =>
+      ({ s with tx := some (o.edit fun t => { t with witnesses := setNth t.witnesses j fun w => { w with inv := b } }) }, "ok")
+    | _, _ => (s, "bad-op")
+  | _, _ => (s, "bad-op")
+
+def extoStep (s : DrvSt) (ws : List String) : DrvSt × String :=
+  match ws, s.ext with
+  | ["new"], _ => ({ s with ext := some ExtObj.new }, "ok")
+  | ["dec", h], some o =>
+    match (Hex.decode h).bind o.decode with
+    | some o' => ({ s with ext := some o' }, "ok")
+    | none => ({ s with ext := none }, "err")
+  | ["hash"], some o => let (o', h) := o.hashOf Sha256.hash; ({ s with ext := some o' }, Hex.encode h)
+  | ["bytes"], some o => (s, Hex.encode (extensibleC.enc o.v))
+  | _, _ => (s, "bad-op")
+
+def step (s : DrvSt) (ws : List String) : DrvSt × String :=
   match ws with
-  | ["case", k] => (s, s!"case {k}")
+  | ["case", k] => ({}, s!"case {k}")
+  | "getvarsize" :: kind :: sizes =>
+    let k : Option ElemKind := match kind with
+      | "ser" => some .serializable
+      | "other" => some .other
+      | "int1" => some .int1
+      | _ => none
+    match k, sizes.mapM String.toNat? with
+    | some k, some l => (s, toString (getVarSizeSlice k l))
+    | _, _ => (s, "bad-op")
+  | "jsont" :: "enc" :: ts =>
+    match pItem ts with
+    | some (v, []) =>
+      match toJSONTyped v with
+      | some t => (s, Hex.encode t)
+      | none => (s, "err")
+    | _ => (s, "bad-value")
+  | ["jsont", "dec", h] =>
+    match Hex.decode h with
+    | some b =>
+      match fromJSONTyped b with
+      | some (.ok v) => (s, "ok " ++ joinToks (showItem v))
+      | some .err => (s, "err")
+      | some .panic => (s, "panic")
+      | none => (s, "unsupported")
+    | none => (s, "bad-op")
+  | "jsonu" :: "enc" :: ts =>
+    match pItem ts with
+    | some (v, []) =>
+      match toJSONU v with
+      | some t => (s, Hex.encode t)
+      | none => (s, "err")
+    | _ => (s, "bad-value")
+  | ["jsonu", "dec", mc, h] =>
+    match mc.toNat?, Hex.decode h with
+    | some maxCount, some b =>
+      match fromJSONU maxCount b with
+      | some (some v) => (s, "ok " ++ joinToks (showItem v))
+      | some none => (s, "err")
+      | none => (s, "unsupported")
+    | _, _ => (s, "bad-op")
+  | "txo" :: rest => txoStep s rest
+  | "exto" :: rest => extoStep s rest
   | ["putvaruint", n] =>
     match n.toNat? with
     | some v => (s, Hex.encode (putVarUint v))
@@ -197,6 +356,16 @@ def step (s : Unit) (ws : List String) : Unit × String :=
     match Hex.decode h with
     | some bs => (s, decOp name bs)
     | none => (s, "bad-op")
+  | ["dec", name, h, x] =>
+    match Hex.decode h, Hex.decode x with
+    | some bs, some nx =>
+      match name with
+      | "mfitem" => (s, manifestObs (fun _ => nx) bs)
+      | "contract" => (s, contractObs (fun _ => nx) bs)
+      | _ => (s, "bad-op")
+    | _, _ => (s, "bad-op")
+  | "encdag" :: "0" :: ts => (s, dagEncObs false ts)
+  | "encdag" :: "1" :: ts => (s, dagEncObs true ts)
   | "enc" :: name :: ts => (s, encOp name ts)
   | ["txpaths", h] =>
     match Hex.decode h with
@@ -204,4 +373,4 @@ def step (s : Unit) (ws : List String) : Unit × String :=
     | none => (s, "bad-op")
   | _ => (s, "bad-op")
 
-def main : IO Unit := Proto.run () step
+def main : IO Unit := Proto.run ({} : DrvSt) step
